@@ -457,3 +457,52 @@ def ctext_flat(t):
             out += "§%d§" % len(terms)
             terms.append(p)
     return out, terms
+
+
+# ---------------------------------------------------------------------------------------------------------------------
+# LLVM back end: the builder calls LLVMFunction.add_ir issues for one operator
+
+LLVMC = "miasm/jitter/llvmconvert.py"
+_KIND_OF_CLASS = {"ExprInt": "int", "ExprId": "id", "ExprOp": "op", "ExprMem": "mem", "ExprSlice": "slice", "ExprCompose": "compose",
+                  "ExprCond": "cond", "ExprLoc": "loc"}
+
+
+class _LLVMInterp(_LeafInterp):
+    """`builder.X(...)`, `LLVMType.X(...)`, `llvm_ir.X(...)`, `self.mod.X(...)` are externals (terms); a term applied to arguments is
+    the term ("apply", f, args...); isinstance on the expression handed in is decided from its kind."""
+
+    def ev(self, e, env):
+        if isinstance(e, ast.Call) and isinstance(e.func, ast.Name) and e.func.id == "isinstance" and len(e.args) == 2:
+            x = self.ev(e.args[0], env)
+            classes = e.args[1].elts if isinstance(e.args[1], ast.Tuple) else [e.args[1]]
+            names = [c.id if isinstance(c, ast.Name) else getattr(c, "attr", None) for c in classes]
+            if isinstance(x, FakeExpr) and all(n in _KIND_OF_CLASS for n in names):
+                return x.kind in [_KIND_OF_CLASS[n] for n in names]
+            raise Undetermined("isinstance")
+        return _LeafInterp.ev(self, e, env)
+
+    def call(self, e, env):
+        f = self.ev(e.func, env)
+        if isinstance(f, Term):
+            return Term("apply", f, *[self.ev(a, env) for a in e.args])
+        return _LeafInterp.call(self, e, env)
+
+
+def llvm_term(repo, op, nargs, size, arg_sizes=None):
+    """Term of builder calls that LLVMFunction.add_ir returns for op(a, b, ..) at `size` bits (operands are leaves)."""
+    m = repo.mod(LLVMC)
+    cls = "LLVMFunction"
+    meths = dict((q.split(".", 1)[1], f) for q, f in m.funcs.items() if q.startswith(cls + ".") and q.count(".") == 1)
+    real = meths["add_ir"]
+    wrapper = ast.parse("def add_ir(self, expr):\n    if expr.is_id():\n        return __leaf__(expr)\n    return self.__add_ir_real__(expr)").body[0]
+    meths["add_ir"] = wrapper
+    meths["__add_ir_real__"] = real
+    consts = _module_consts(repo, LLVMC)
+    it = _LLVMInterp(functions={}, methods=meths, consts=consts, externals=("LLVMType", "llvm_ir"))
+    selfobj = {"__self__": True, "main_stream": False, "builder": ("__ext__", "B"), "mod": ("__ext__", "mod"),
+               "llvm_context": ("__ext__", "ctx"), "expr_cache": {}, "local_vars": {}}
+    selfobj.update(_class_consts(m, cls))
+    sizes = arg_sizes or [size] * nargs
+    leaves = [FakeExpr("id", s, name="abcd"[i]) for i, s in enumerate(sizes)]
+    expr = FakeExpr("op", size, op=op, args=leaves)
+    return it.call_function(real, [expr], self_obj=selfobj)
